@@ -362,6 +362,9 @@ func (t *Tracer) walkParam(p *ssa.Parameter, seen map[ssa.Value]bool, out map[st
 	}
 	node := t.CG.Nodes[fn]
 	if node == nil || len(node.In) == 0 {
+		if fn.Synthetic != "" {
+			return // an uncalled promoted-method / bound-method wrapper contributes nothing
+		}
 		add(out, "param", pname, p)
 		return
 	}
@@ -386,7 +389,7 @@ func (t *Tracer) walkParam(p *ssa.Parameter, seen map[ssa.Value]bool, out map[st
 			t.walk(args[idx], seen, out, depth+1)
 		}
 	}
-	if n == 0 {
+	if n == 0 && fn.Synthetic == "" {
 		add(out, "param", pname, p)
 	}
 }
